@@ -1,6 +1,7 @@
 package props
 
 import (
+	"crypto/tls"
 	"encoding/json"
 	"math/rand"
 	"net/http"
@@ -21,6 +22,9 @@ type c13Spec struct {
 	// History: handshakes the same process served before this one (the policy is a function of this
 	// request alone: nothing an earlier request did may matter)
 	History []c13Req `json:"history,omitempty"`
+	// SNI: the request arrived over TLS with this server name in the handshake (http.Request.TLS); the
+	// policy compares Origin with the Host header, nothing else
+	SNI string `json:"tls_server_name,omitempty"`
 }
 
 type c13Req struct {
@@ -51,6 +55,9 @@ func c13Exec(s core.Spec) core.Exec {
 	r.Header["Upgrade"] = []string{"websocket"}
 	r.Header["Sec-Websocket-Version"] = []string{"13"}
 	r.Header["Sec-Websocket-Key"] = []string{"dGhlIHNhbXBsZSBub25jZQ=="}
+	if sp.SNI != "" {
+		r.TLS = &tls.ConnectionState{ServerName: sp.SNI, HandshakeComplete: true}
+	}
 	var origins []string
 	for _, o := range sp.Origins {
 		origins = append(origins, string(o))
@@ -88,6 +95,9 @@ func c13Exec(s core.Spec) core.Exec {
 	t.N(up).Bool(direct)
 	tags := []string{"class:" + sp.Class, core.Tag("up:%d", up)}
 	tags = append(tags, core.Tag("history:%d", len(sp.History)))
+	if sp.SNI != "" {
+		tags = append(tags, "tls-sni:set")
+	}
 	return core.Exec{Tape: t.String(), Tags: tags, Nontrivial: len(sp.Origins) > 0}
 }
 
@@ -244,6 +254,9 @@ func c13Gen(rng *rand.Rand, tier string) []core.Spec {
 		if rng.Intn(30) == 0 {
 			sp.Origins = append(sp.Origins, []byte("http://"+host))
 			sp.Class += "+second-origin-same"
+		}
+		if pu, err := url.Parse(o); err == nil && pu.Hostname() != "" && rng.Intn(5) == 0 {
+			sp.SNI = core.Pick(rng, []string{pu.Hostname(), string(sp.Host), "other.example.net"})
 		}
 		switch rng.Intn(4) {
 		case 0:
